@@ -12,7 +12,7 @@ import ast
 
 from ..gfi.all import ALL
 from ..gfi.common import run_for
-from ..rules import is_call, is_mcall
+from ..rules import Arms, is_call, is_mcall
 from ..terms import C, Evaluator, G, P, is_t, mk_proj, show
 from .C38 import request_combinators
 
@@ -58,7 +58,7 @@ def propagate(chk, prog):
     for meth, want_diff, want_plain in (("tree_primal", "get_primal", "v"), ("tree_tangent", "get_tangent", "NoChange")):
         inner = prog.nested(D.methods[meth], "_inner")
         ri = Evaluator(prog).eval_fn(inner, D.module, D)
-        got = {}
+        got = Arms()
         for conds, ret in ri.returns:
             got["diff" if any(is_t(tt, "isinst") and tt[2] == "Diff" and p for tt, p in conds) else "plain"] = ret
         okd = is_mcall(got.get("diff"), want_diff) and (got.get("plain") == P("v") if want_plain == "v" else (is_t(got.get("plain"), "global") and got["plain"][1].endswith("NoChange")))
